@@ -341,6 +341,13 @@ def main(argv):
                     for c, i, m in dis[:50]:
                         violations.append((sub["reference"], "%s: the implementation gives `%s`, the specification-derived reference gives `%s`"
                                            % (sub["reference"], i[:300], m[:300]), c))
+                mk = sub.get("marker_violation")
+                if total and mk:
+                    # the model side refuses to run because the code departs from the specification table the theorems are
+                    # about: for this property that departure is itself the failing input
+                    for c, i, m in dis[:50]:
+                        if m.startswith(mk["prefix"]):
+                            violations.append((mk["class"], "%s (implementation: `%s`)" % (m[:300], i[:200]), c))
                 if total:
                     body = "".join("case: %s\nimpl:  %s\nmodel: %s\n\n" % x for x in dis[:10])
                     broken.append(("correspondence:" + sub["name"],
